@@ -3,6 +3,7 @@ C01 — Frame round-trip fidelity (v1 and v2). Property theorems only.
 -/
 import OAP.Model.Frame
 import OAP.Proofs.Frame
+import OAP.Proofs.StreamComplete
 import OAP.Props.C02
 import OAP.Props.C09
 set_option linter.unusedSimpArgs false
@@ -192,5 +193,138 @@ example : ∃ bs p' q, pack .v2 idGz exPacket 1 = .ok (bs, p') ∧ p'.gzip = tru
     · rw [hp]
   | err e => rw [h] at hok; cases hok
   | panic w => rw [h] at hok; cases hok
+
+/-! ### the round trip through the streaming decoder -/
+
+/-- what `Pack` emits for a packet in the domain is a valid frame of the published layout
+(`Denotes`: `ValidFrame` for some content and metadata pairs, `q` the packet its fields denote),
+and the denoted packet is the packet that was sent -/
+theorem pack_denotes (v : Ver) (gz : GzOracle) (p p' : Packet) (thr : Int) (bs : Bytes) (codec : UInt8)
+    (hd : InDomain v p) (hs : gz.Sound) (h : pack v gz p thr = .ok (bs, p')) :
+    ∃ f q, bs = Spec.encode v f ∧ Denotes v gz codec f q ∧ Equiv v p q := by
+  obtain ⟨ht, hcmd, hsig, hgz, hmdv⟩ := hd
+  obtain ⟨hpre, _, hlen, hbs⟩ := pack_ok_inv v gz p p' thr bs h
+  have hmd : v = .v2 → Metadata.rawPairs (Metadata.marshalMap p.values 65535) = .ok (Metadata.sortPairs p.values) := by
+    intro hv2
+    obtain ⟨hvp, hfit⟩ := hmdv hv2
+    have hp : (Metadata.sortPairs p.values).Perm p.values := List.mergeSort_perm _ Metadata.keyLe
+    have hv' : ∀ kv ∈ Metadata.sortPairs p.values, Metadata.validPair kv = true := fun kv h => hvp kv (hp.subset h)
+    unfold Metadata.marshalMap
+    rw [C09.marshal_all_fit _ _ hv' hfit, C09.decode_complete]
+    intro kv h
+    have := hv' kv h
+    simp [Metadata.validPair] at this
+    exact ⟨this.1.2, this.2⟩
+  obtain ⟨hvalid, e1, e2, e3, e4, e5, e6, e7, e8, e9, e10⟩ := specOf_valid v gz p p' thr ht hgz hs hpre hlen hmd
+  refine ⟨specOf v p', packetOf (specOf v p') codec p.body (psOf v p.values), hbs, ⟨_, _, hvalid, rfl⟩, ?_⟩
+  have hc : UInt32.ofNat (p.cmd.toNat % 256) = p.cmd := by
+    rw [Nat.mod_eq_of_lt hcmd]; simp
+  unfold Equiv packetOf specOf
+  simp only [e1, e2, e3, e4, e5, e6, e7, e8, e9, hc]
+  have hv2 : v = Ver.v2 → psOf v p.values = Metadata.sortPairs p.values := by intro h; subst h; rfl
+  cases hpv : p.verify
+  · cases hpt : p.type <;> simp_all
+  · have hsw := sigWindow_id p.signature (hsig hpv)
+    cases hpt : p.type <;> simp_all
+
+/-- the frames `Pack` emits for a list of packets in the domain (each with its own threshold) are
+valid layout frames denoting the packets sent, in order -/
+theorem packs_denote (v : Ver) (gz : GzOracle) (codec : UInt8) (hs : gz.Sound)
+    (sent : List (Packet × Int)) (frames : List Bytes)
+    (hd : ∀ x ∈ sent, InDomain v x.1)
+    (hp : Forall₂ (fun x bs => ∃ p', pack v gz x.1 x.2 = .ok (bs, p')) sent frames) :
+    ∃ fs qs, frames = fs.map (Spec.encode v) ∧ Forall₂ (Denotes v gz codec) fs qs ∧
+      Forall₂ (Equiv v) (sent.map (·.1)) qs := by
+  induction hp with
+  | nil => exact ⟨[], [], rfl, .nil, .nil⟩
+  | @cons x bs xs bss hab _ ih =>
+    obtain ⟨p', hpk⟩ := hab
+    obtain ⟨f, q, hbs, hden, heq⟩ := pack_denotes v gz x.1 p' x.2 bs codec (hd x (by simp)) hs hpk
+    obtain ⟨fs, qs, hfr, hdens, heqs⟩ := ih (fun y hy => hd y (by simp [hy]))
+    exact ⟨f :: fs, q :: qs, by rw [hbs, hfr]; rfl, .cons hden hdens, .cons heq heqs⟩
+
+/-- ROUND TRIP (streaming decoder, end to end). Any list of packets in the domain, each packed with
+its own gzip threshold (`sent : List (Packet × Int)`), a sound gzip oracle; `frames` are the byte
+strings `Pack` returns, in order. Then for EVERY way `chunks` of cutting the concatenated frames
+into pieces — byte by byte, across header / metadata / body / trailer boundaries, several frames
+in one chunk, empty chunks — feeding the chunks one by one into a fresh connection (append to the
+queue, loop `Unpack` until it reports no packet) delivers exactly one packet per packet sent, in
+order, each `Equiv` to the one sent, and no error verdict. `Forall₂` (OAP/Proofs/StreamComplete.lean)
+is the element-by-element relation of two lists of the same length (`forall₂_iff_getElem`). -/
+theorem roundtrip_stream (v : Ver) (gz : GzOracle) (codec : UInt8) (hs : gz.Sound)
+    (sent : List (Packet × Int)) (frames : List Bytes)
+    (hd : ∀ x ∈ sent, InDomain v x.1)
+    (hp : Forall₂ (fun x bs => ∃ p', pack v gz x.1 x.2 = .ok (bs, p')) sent frames)
+    (chunks : List Bytes) (hc : chunks.flatten = frames.flatten) :
+    ∃ qs, (feed v gz codec chunks).obs = (qs, none) ∧ Forall₂ (Equiv v) (sent.map (·.1)) qs := by
+  obtain ⟨fs, qs, hfr, hden, heq⟩ := packs_denote v gz codec hs sent frames hd hp
+  exact ⟨qs, feed_frames v gz codec fs qs hden chunks (by rw [hc, hfr]), heq⟩
+
+/-- the same over the REAL ring buffer model: the chunks are `Write`-n into any well-formed empty
+ring — any capacity (growth included), any read/write offset — and `Unpack` is looped over the ring
+after each write -/
+theorem roundtrip_stream_ring (v : Ver) (gz : GzOracle) (codec : UInt8) (hs : gz.Sound)
+    (sent : List (Packet × Int)) (frames : List Bytes)
+    (hd : ∀ x ∈ sent, InDomain v x.1)
+    (hp : Forall₂ (fun x bs => ∃ p', pack v gz x.1 x.2 = .ok (bs, p')) sent frames)
+    (rb0 : Ring) (wf : rb0.WF) (he : rb0.abs = [])
+    (chunks : List Bytes) (hc : chunks.flatten = frames.flatten) :
+    ∃ qs, (rfeed v gz codec rb0 chunks).obs = (qs, none) ∧ Forall₂ (Equiv v) (sent.map (·.1)) qs := by
+  rw [rfeed_obs v gz codec rb0 wf he chunks]
+  exact roundtrip_stream v gz codec hs sent frames hd hp chunks hc
+
+/-- instance: a ring from `ringbuffer.New(cap)`, any initial capacity (0 included) -/
+theorem roundtrip_stream_ring_new (v : Ver) (gz : GzOracle) (codec : UInt8) (hs : gz.Sound)
+    (sent : List (Packet × Int)) (frames : List Bytes)
+    (hd : ∀ x ∈ sent, InDomain v x.1)
+    (hp : Forall₂ (fun x bs => ∃ p', pack v gz x.1 x.2 = .ok (bs, p')) sent frames)
+    (cap : Nat) (chunks : List Bytes) (hc : chunks.flatten = frames.flatten) :
+    ∃ qs, (rfeed v gz codec (Ring.new cap) chunks).obs = (qs, none) ∧ Forall₂ (Equiv v) (sent.map (·.1)) qs :=
+  roundtrip_stream_ring v gz codec hs sent frames hd hp _ (ring_new_wf cap).1 (ring_new_wf cap).2 chunks hc
+
+/-- a single packet, a single threshold -/
+theorem roundtrip_stream_one (v : Ver) (gz : GzOracle) (p p' : Packet) (thr : Int) (bs : Bytes) (codec : UInt8)
+    (hd : InDomain v p) (hs : gz.Sound) (h : pack v gz p thr = .ok (bs, p'))
+    (chunks : List Bytes) (hc : chunks.flatten = bs) :
+    ∃ q, (feed v gz codec chunks).obs = ([q], none) ∧ Equiv v p q := by
+  obtain ⟨qs, h1, h2⟩ := roundtrip_stream v gz codec hs [(p, thr)] [bs] (by simpa using hd)
+    (.cons ⟨p', h⟩ .nil) chunks (by simpa using hc)
+  cases h2 with
+  | cons hq ht => cases ht; exact ⟨_, h1, hq⟩
+
+/-! non-vacuity: the example packet sent twice — once plain (threshold 0), once with compression
+engaged (threshold 1) — over v2; every chunking of the two frames delivers two packets `Equiv` to it,
+from the queue and from a ring of initial capacity 4 (which has to grow) -/
+example : ∃ b1 p1 b2 p2, pack .v2 idGz exPacket 0 = .ok (b1, p1) ∧ pack .v2 idGz exPacket 1 = .ok (b2, p2) ∧
+    ∀ chunks : List Bytes, chunks.flatten = b1 ++ b2 →
+      ∃ q1 q2, (feed .v2 idGz 1 chunks).obs = ([q1, q2], none) ∧
+        (rfeed .v2 idGz 1 (Ring.new 4) chunks).obs = ([q1, q2], none) ∧
+        Equiv .v2 exPacket q1 ∧ Equiv .v2 exPacket q2 := by
+  have hb0 : wireBody .v2 idGz exPacket 0 = .ok [1, 2, 3] := by decide
+  have hb1 : wireBody .v2 idGz exPacket 1 = .ok [1, 2, 3] := by decide
+  have hok0 := (pack_ok_iff .v2 idGz exPacket 0 _ hb0).mpr ⟨by decide, by decide⟩
+  have hok1 := (pack_ok_iff .v2 idGz exPacket 1 _ hb1).mpr ⟨by decide, by decide⟩
+  cases h0 : pack .v2 idGz exPacket 0 with
+  | err e => rw [h0] at hok0; cases hok0
+  | panic w => rw [h0] at hok0; cases hok0
+  | ok r0 =>
+    cases h1 : pack .v2 idGz exPacket 1 with
+    | err e => rw [h1] at hok1; cases hok1
+    | panic w => rw [h1] at hok1; cases hok1
+    | ok r1 =>
+      obtain ⟨b1, p1⟩ := r0
+      obtain ⟨b2, p2⟩ := r1
+      refine ⟨b1, p1, b2, p2, rfl, rfl, fun chunks hc => ?_⟩
+      have hd : ∀ x ∈ [(exPacket, (0 : Int)), (exPacket, 1)], InDomain .v2 x.1 := by
+        intro x hx
+        simp only [List.mem_cons, List.not_mem_nil, or_false] at hx
+        rcases hx with rfl | rfl <;> exact exPacket_inDomain
+      have hp : Forall₂ (fun x bs => ∃ p', pack .v2 idGz x.1 x.2 = .ok (bs, p'))
+          [(exPacket, (0 : Int)), (exPacket, 1)] [b1, b2] := .cons ⟨p1, h0⟩ (.cons ⟨p2, h1⟩ .nil)
+      obtain ⟨qs, hq1, hq2⟩ := roundtrip_stream .v2 idGz 1 idGz_sound _ _ hd hp chunks (by simpa using hc)
+      have hr := rfeed_obs .v2 idGz 1 (Ring.new 4) (ring_new_wf 4).1 (ring_new_wf 4).2 chunks
+      cases hq2 with
+      | cons e1 ht => cases ht with
+        | cons e2 ht2 => cases ht2; exact ⟨_, _, hq1, by rw [hr, hq1], e1, e2⟩
 
 end OAP.C01
